@@ -148,12 +148,13 @@ func TestVerifWitness_DC2(t *testing.T) {
 			if err != nil {
 				t.Fatal(err)
 			}
-			if !durable(vc09DiskBitmap(t, f.path)) {
-				t.Fatalf("%s returned (acknowledged) while the fragment file does not contain the change and the snapshot is only queued: a kill now loses it", what)
-			}
-			// drain like the worker would
+			ok := durable(vc09DiskBitmap(t, f.path))
+			// drain like the worker would (Close waits for the queued snapshot)
 			_ = fr.protectedSnapshot(true)
 			fr.snapshotCond.Broadcast()
+			if !ok {
+				t.Fatalf("%s returned (acknowledged) while the fragment file does not contain the change and the snapshot is only queued: a kill now loses it", what)
+			}
 			return
 		case <-time.After(300 * time.Millisecond):
 		}
